@@ -63,6 +63,18 @@ def history_probes(role, U, T, gpg):
     elif others:
         T3["signed"]["delegations"][role] = copy.deepcopy(T3["signed"]["delegations"][others[0]])
     n += _compare(role, copy.deepcopy(U), T3, gpg, "the SAME trusted object changed in place")
+    # the SAME trusted object damaged in place so that it is no longer well-formed delegating metadata (the asked role's own
+    # rule stays as it was): a validation remembered from the previous call must not vouch for it
+    for k, damage in enumerate(("no-expiration", "type", "foreign-delegation")):
+        T4 = copy.deepcopy(T)
+        RV.outcome(A.verify_delegation, role, copy.deepcopy(U), T4, gpg=gpg)
+        if damage == "no-expiration":
+            T4["signed"].pop("expiration", None)
+        elif damage == "type":
+            T4["signed"]["type"] = "Root"
+        else:
+            T4["signed"]["delegations"]["\u0000damaged"] = {"pubkeys": "not a list", "threshold": 0, "extra": None}
+        n += _compare(role, copy.deepcopy(U), T4, gpg, "the SAME trusted object damaged in place (%s)" % damage)
     # same signatures, changed payload
     U2 = copy.deepcopy(U)
     RV.outcome(A.verify_delegation, role, U2, T, gpg=gpg)
